@@ -127,7 +127,13 @@ func genComponent(r *core.Rand, alphabet string) string {
 			if r.Chance(1, 3) {
 				b.WriteString(strings.Repeat("0", r.Range(1, 3)))
 			}
-			b.WriteString(r.Str("0123456789", r.Range(1, 4)))
+			if r.Chance(1, 8) {
+				// numbers at the limits of the machine integer types (a comparison through
+				// ParseUint / Atoi changes exactly there)
+				b.WriteString(r.Pick(boundaryNumbers))
+			} else {
+				b.WriteString(r.Str("0123456789", r.Range(1, 4)))
+			}
 		case 2:
 			b.WriteString(r.Str("abzAZ", r.Range(1, 3)))
 		case 3:
@@ -169,22 +175,41 @@ func mutateComponent(r *core.Rand, s string, alphabet string) string {
 		return s[:pos] + r.Str("a+.~Z-", 1) + s[pos:]
 	case 7: // append
 		return s + r.Str(alphabet, r.Range(1, 3))
+	case 8: // a boundary number next to another one (2^64-1 against 2^64, ...)
+		for _, bn := range boundaryNumbers {
+			if i := strings.Index(s, bn); i >= 0 {
+				return s[:i] + r.Pick(boundaryNumbers) + s[i+len(bn):]
+			}
+		}
+		return s[:pos] + r.Pick(boundaryNumbers) + s[pos:]
 	}
 	return s
 }
 
+var boundaryNumbers = []string{"2147483647", "2147483648", "4294967295", "4294967296", "9223372036854775807", "9223372036854775808",
+	"18446744073709551614", "18446744073709551615", "18446744073709551616", "18446744073709551617", "99999999999999999999", "100000000000000000000"}
+
+// genEpoch: small epochs mostly; sometimes values beyond the signed range (a Version can be
+// built directly, and Compare takes any uint)
+func genEpoch(r *core.Rand) uint {
+	if r.Chance(1, 10) {
+		return []uint{1<<31 - 1, 1 << 31, 1 << 32, 1<<63 - 1, 1 << 63, 1<<63 + 5, ^uint(0) - 1, ^uint(0)}[r.Intn(8)]
+	}
+	return uint(r.Intn(3))
+}
+
 func genVersionPair(r *core.Rand, alphabet string) (version.Version, version.Version) {
-	a := version.Version{Epoch: uint(r.Intn(3)), Version: genComponent(r, alphabet), Revision: strings.ReplaceAll(genComponent(r, alphabet), "-", "")}
+	a := version.Version{Epoch: genEpoch(r), Version: genComponent(r, alphabet), Revision: strings.ReplaceAll(genComponent(r, alphabet), "-", "")}
 	b := a
 	switch r.Intn(6) {
 	case 0:
-		b.Epoch = uint(r.Intn(3))
+		b.Epoch = genEpoch(r)
 	case 1, 2:
 		b.Version = mutateComponent(r, a.Version, alphabet)
 	case 3, 4:
 		b.Revision = strings.ReplaceAll(mutateComponent(r, a.Revision, alphabet), "-", "")
 	case 5:
-		b = version.Version{Epoch: uint(r.Intn(3)), Version: genComponent(r, alphabet), Revision: genComponent(r, alphabet)}
+		b = version.Version{Epoch: genEpoch(r), Version: genComponent(r, alphabet), Revision: genComponent(r, alphabet)}
 	}
 	if r.Bool() {
 		return b, a
